@@ -625,13 +625,16 @@ def replay_common(ctx, pid, path):
 
 def history_matrix_jobs(variants):
     """Scripted late-joiner programs: every legal (buffer, history request) pair against a publisher that
-    already sent three samples; the verdict comes from the trace validation like for every other program."""
+    already sent three (full history), two, one (partially filled history) or no samples; the verdict comes from the trace validation like for every other program."""
     jobs = []
-    for bufmax, hist, overflow in ((3, 2, True), (3, 2, False), (2, 1, True), (2, 2, False)):
+    # presend: how many samples the publisher sent before the first late joiner - 3 fills every history ring,
+    # 1 leaves a ring of size 2 PARTIALLY filled (a late joiner that requests 2 must get the 1 that exists:
+    # seeded change C01/1 skipped the replay whenever fewer samples than requested were available), 0 = empty
+    for bufmax, hist, overflow, presend in ((3, 2, True, 3), (3, 2, False, 3), (2, 1, True, 3), (2, 2, False, 3)):
         q = qos(maxpubs=1, maxsubs=1, bufmax=bufmax, hist=hist, borrow=2, loan=1, overflow=overflow,
                 strategy="discard" if overflow else "retry_discard")
         prog = [{"a": "create_pub", "p": 1}]
-        for _ in range(3):
+        for _ in range(presend):
             prog += [{"a": "loan", "p": 1}, {"a": "send", "p": 1, "id": 0}]
         s = 0
         for buf in range(1, bufmax + 1):
@@ -647,6 +650,37 @@ def history_matrix_jobs(variants):
                          {"a": "recv", "s": s}, {"a": "drop_sub", "s": s, "mode": "orderly"}]
         for payload, variant in variants[:2]:
             jobs.append({"cfg": dict(q, payload=payload, variant=variant), "program": prog})
+    # partially filled history: one short program per (history size, samples sent so far, buffer, request); the FIRST
+    # late joiner meets a ring that holds fewer samples than it requests
+    n = 0
+    for hist in (2, 3):
+        for presend in range(0, hist):
+            for buf in range(1, 4):
+                for req in range(1, min(hist, buf) + 1):
+                    if req <= presend:
+                        continue        # covered by the matrix above
+                    n += 1
+                    overflow = n % 2 == 0
+                    q = qos(maxpubs=1, maxsubs=2, bufmax=3, hist=hist, borrow=2, loan=1, overflow=overflow,
+                            strategy="discard" if overflow else "retry_discard")
+                    prog = [{"a": "create_pub", "p": 1}]
+                    for _ in range(presend):
+                        prog += [{"a": "loan", "p": 1}, {"a": "send", "p": 1, "id": 0}]
+                    prog += [{"a": "create_sub", "s": 1, "buf": buf, "req": req}]
+                    if n % 3 == 0:      # connected by the subscriber's own update instead of the next send
+                        prog += [{"a": "update_pub", "p": 1}]
+                    else:
+                        prog += [{"a": "loan", "p": 1}, {"a": "send", "p": 1, "id": 0}]
+                    prog += [{"a": "has", "s": 1}]
+                    for _ in range(req + 2):
+                        prog += [{"a": "recv", "s": 1}, {"a": "drop_sample", "s": 1, "id": 0}]
+                    prog += [{"a": "create_sub", "s": 2, "buf": buf, "req": req}, {"a": "loan", "p": 1},
+                             {"a": "send", "p": 1, "id": 0}]
+                    for _ in range(req + 2):
+                        prog += [{"a": "recv", "s": 2}, {"a": "drop_sample", "s": 2, "id": 0}]
+                    prog += [{"a": "recv", "s": 1}, {"a": "has", "s": 1}, {"a": "has", "s": 2}]
+                    payload, variant = variants[n % len(variants)]
+                    jobs.append({"cfg": dict(q, payload=payload, variant=variant), "program": prog})
     return jobs
 
 
